@@ -132,3 +132,128 @@ def run(prog, scope=None, rule="R-FMT", floor=300):
     res.counts["printf_like_calls"] = n
     res.floor("printf-like call sites", n, floor)
     return res
+
+
+# ------------------------------------------------------------------ R-FMTARGS
+import re as _re
+
+_SPEC = _re.compile(r"%([-+ #0]*)(\*|\d+)?(?:\.(\*|\d+))?(hh|h|ll|l|L|z|j|t|q)?([diouxXeEfFgGaAcspn%])")
+
+INTS = {"int", "unsigned int", "char", "signed char", "unsigned char", "short", "unsigned short", "_Bool"}
+LONGS = {"long", "unsigned long", "long long", "unsigned long long"}
+
+
+def _arg_class(t):
+    t = t.strip()
+    if t.startswith("const "):
+        t = t[6:].strip()
+    if t.endswith("*"):
+        base = t[:-1].strip().replace("const ", "").strip()
+        return "str" if base in ("char", "signed char", "unsigned char") else "ptr"
+    if t in INTS or t.startswith("enum "):
+        return "int"
+    if t in LONGS:
+        return "long"
+    if t in ("double", "float"):
+        return "dbl"
+    if t == "long double":
+        return "ldbl"
+    if t.startswith(("struct ", "union ")) or "[" in t:
+        return "rec"
+    return "?"
+
+
+def _want(conv, length):
+    if conv in "di" or conv in "ouxXc":
+        if conv == "c":
+            return {"int"}
+        if length in ("l", "ll", "z", "j", "t", "q"):
+            return {"long"}
+        return {"int"}
+    if conv in "eEfFgGaA":
+        return {"ldbl"} if length == "L" else {"dbl"}
+    if conv == "s":
+        return {"str"}
+    if conv == "p":
+        return {"ptr", "str"}
+    if conv == "n":
+        return {"ptr"}
+    return set()
+
+
+def run_args(prog, rule="R-FMTARGS", floor=300):
+    """type agreement between a literal format and the arguments of a printf-like call.  The set of printf-like functions is computed
+    from the declarations (variadic, last named parameter const char *), the exporter records the promoted canonical type of every
+    argument of a variadic call, the conversions of the literal are parsed (flags, `*` width / precision, length modifiers).  Reported:
+    a conversion whose argument belongs to another category (a number conversion given a pointer or a record - the rational type is an
+    array of records, so `%g` with an EGLPNUM_TYPE argument is right in the double instantiation and garbage in the rational one -, `%s`
+    given a number, an int conversion given a double ...) and a call with fewer arguments than conversions.  An int / long width
+    difference is counted, not reported (same category)."""
+    res = RuleResult(rule, "every conversion of a literal format of a printf-like call is given an argument of its category (integer, floating, "
+                           "string, pointer), and no conversion is left without an argument")
+    fmtpos = {}
+    for uname, raw in prog.units.items():
+        for d in raw["fdecls"]:
+            pts = d.get("ptypes", [])
+            if d.get("variadic") and pts and pts[-1].replace(" ", "") in ("constchar*", "constchar*restrict", "constchar*__restrict"):
+                fmtpos[d["name"]] = len(pts) - 1
+                fmtpos[norm_callee(d["name"])] = len(pts) - 1
+    n = nconv = nwidth = 0
+    for f in sorted(prog.funcs.values(), key=lambda x: x.key):
+        if "_dbl." in f.unit or "_mpf." in f.unit or f.live is None:
+            continue
+        seen = set()
+        for b, i, c in f.calls():
+            name = c[1]
+            if name not in fmtpos or len(c) < 7:
+                continue
+            k = fmtpos[name]
+            if k >= len(c[3]):
+                continue
+            a = strip(c[3][k])
+            if not (isinstance(a, list) and a and a[0] == "s"):
+                continue
+            if norm_callee(name) in ("sscanf", "fscanf", "scanf"):
+                continue
+            n += 1
+            res.obligations += 1
+            types = c[6][k + 1:]
+            pos = 0
+            bad = None
+            for m in _SPEC.finditer(a[1]):
+                flags, width, prec, length, conv = m.groups()
+                if conv == "%":
+                    continue
+                for star in (width, prec):
+                    if star == "*":
+                        if pos >= len(types):
+                            bad = bad or ("%s: no argument for the '*' of %s" % (pos, m.group(0)))
+                        elif _arg_class(types[pos]) not in ("int", "?"):
+                            bad = bad or ("argument %d (%s) is given for the '*' of %s" % (pos + 1, types[pos], m.group(0)))
+                        pos += 1
+                nconv += 1
+                res.nontrivial += 1
+                if pos >= len(types):
+                    bad = bad or ("no argument is left for %s" % m.group(0))
+                    pos += 1
+                    continue
+                got = _arg_class(types[pos])
+                want = _want(conv, length)
+                if got != "?" and want and got not in want:
+                    if {got} | want <= {"int", "long"}:
+                        nwidth += 1
+                    else:
+                        bad = bad or ("%s is given argument %d of type %s" % (m.group(0), pos + 1, types[pos]))
+                pos += 1
+            if bad:
+                key = "%s|%s: %s" % (f.name.replace("mpq_", ""), norm_callee(name), bad[:60])
+                if key in seen:
+                    continue
+                seen.add(key)
+                res.violations.append(Violation(rule, key, f.name, short_loc(c[4]),
+                                                "%s: %s - the callee reads a value of another category from the argument area" % (show(c)[:110], bad)))
+    res.counts["printf_like_calls_with_literal_format"] = n
+    res.counts["conversions_checked"] = nconv
+    res.counts["int_long_width_differences_not_reported"] = nwidth
+    res.floor("printf-like calls with a literal format", n, floor)
+    return res
